@@ -186,3 +186,85 @@ func searchEncodeFileSW(rng *hx.Rng, n int) {
 		}
 	}
 }
+
+// ---------------------------------------------------------------- the lazy writer (corr)
+//	Z  id sizes                         lazyDataSize(hex) encodeOfPreparedMdat     (AddSampleToTrack for each size, then Mdat.Encode)
+//	L  id valid a b workLen oracle chunks  lazyDataSize(hex) encodeOfPreparedMdat lazyCopySamples   (after F and T lines)
+func preparedMdat(sizes []uint32) (string, string) {
+	var lz, enc string
+	if p := hx.Try(func() {
+		frag, err := mp4.CreateFragment(1, 1)
+		if err != nil {
+			lz, enc = "e", "e"
+			return
+		}
+		for _, z := range sizes {
+			if err := frag.AddSampleToTrack(mp4.NewSample(0, 1, z, 0), 1, 0); err != nil {
+				lz, enc = "e", "e"
+				return
+			}
+		}
+		lz = fmt.Sprintf("%x", frag.Mdat.GetLazyDataSize())
+		enc = encode(frag.Mdat)
+	}); p != "" {
+		return "p", "p"
+	}
+	return lz, enc
+}
+
+func corrLazyWriter(rng *hx.Rng, n int) {
+	// sizes only: totals around the 32-bit header limit (payload 2^32-9 is the last one with an 8-byte header)
+	for i := 0; i < 3*n; i++ {
+		k := rng.Range(0, 6)
+		sizes := make([]uint32, k)
+		strs := make([]string, k)
+		for j := range sizes {
+			sizes[j] = uint32(rng.Pick(0, 1, 7, 1000, 1<<31, 1<<32-1, 1<<32-9, 1<<32-10, 1<<32-8, 1<<31-9, 1<<31-8))
+			if rng.Intn(4) == 0 {
+				sizes[j] = uint32(rng.Intn(1 << 20))
+			}
+			strs[j] = fmt.Sprintf("%d", sizes[j])
+		}
+		lz, enc := preparedMdat(sizes)
+		s := strings.Join(strs, ",")
+		if s == "" {
+			s = "-"
+		}
+		fmt.Fprintf(out, "Z\t%s\t%s\t%s\t%s\n", nextID(), s, lz, enc)
+	}
+	// end to end on progressive files: prepared header + CopySampleData from the lazily decoded input
+	for i := 0; i < n; i++ {
+		pf := genProg(rng, progOpts{maxChunks: 4, maxSpc: 3, maxSize: 6})
+		zeof := rng.Bool()
+		fm, fl, _, _ := decodeFileBoth(pf.file, genOracle(rng), zeof)
+		mf := mfile{pf.file, pf.mdatPos, pf.large, pf.plen}
+		mm, ml := emitFile(mf, genOracle(rng), zeof)
+		if fm == nil || fl == nil || mm == nil || ml == nil || fm.Mdat == nil || fl.Mdat == nil {
+			continue
+		}
+		fmt.Fprintln(out, pf.tableLine())
+		ns := len(pf.sizes)
+		stsc := fm.Moov.Trak.Mdia.Minf.Stbl.Stsc
+		for j := 0; j < 5; j++ {
+			a := rng.Range(1, ns)
+			b := rng.Range(a, ns)
+			if j == 0 {
+				a, b = 1, ns
+			}
+			var cs []mp4.Chunk
+			var err error
+			if p := hx.Try(func() { cs, err = stsc.GetContainingChunks(uint32(a), uint32(b)) }); p != "" || err != nil {
+				continue
+			}
+			var sizes []uint32
+			for k := a; k <= b; k++ {
+				sizes = append(sizes, uint32(pf.sizes[k-1]))
+			}
+			lz, enc := preparedMdat(sizes)
+			wl := workLens[rng.Intn(len(workLens))]
+			orc := genOracle(rng)
+			rl, _ := copySamples(fl, pf.file, uint32(a), uint32(b), wl, orc, zeof)
+			fmt.Fprintf(out, "L\t%s\t%d\t%d\t%d\t%d\t%s\t%s\t%s\t%s\t%s\n", nextID(), b2i(!pf.corrupt), a, b, wl, hx.Csv(orc), chunksStr(cs), lz, enc, rl)
+		}
+	}
+}
